@@ -20,8 +20,9 @@ first / a middle / the last payload byte, the first and the second CRC byte.
 
 Monitors: (1) UTMI capture: a byte is sent when `tx_valid & tx_ready`, a packet ends when `tx_valid` falls; per byte the number
 of stall cycles in front of it is recorded (coverage is derived from what was observed, not from what was intended);
-(2) stream monitor: every `valid & ready` on the endpoint stream with payload; (3) progress watchdog: pending work and no
-byte accepted during 40 cycles with `tx_ready` high => violation (bounded liveness).
+(2) stream monitor: every `valid & ready` on the endpoint stream with payload; (3) progress watchdogs (bounded liveness /
+conservation): work pending and no byte accepted during 40 cycles with `tx_ready` high, work pending and `tx_valid` low for 60
+cycles, or a byte sent although everything requested has already left => violation, case aborted.
 
 Oracle (rv.ref PID table + bit-serial CRC16; no luna code): the k-th packet on the wire == PID(DATA0/1/2/MDATA by select) ||
 payload_k || CRC16(payload_k) low byte first; number of packets == number of requests (no split, duplicate or unsolicited
@@ -30,6 +31,12 @@ packet); the stream handshakes between request k and request k+1 are exactly pay
 Not judged: stability of tx_data while stalled (the statement defines a packet by the accepted bytes), latency (only the
 progress bound above), under-run (`valid` dropped inside a packet), simultaneous transmit requests of several endpoints,
 host transmitting while the device transmits.
+
+Validation (tools/mut.py, 93 repository tests green unless noted): caught — device `data_crc.tx_valid` without `& tx_ready`,
+stand-alone CRC advancing on tx.valid, SEND_PAYLOAD / SEND_PID / SEND_CRC_FIRST / SEND_CRC_SECOND left without tx.ready,
+device data_pid reduced to one bit.  Killed by the repository tests (and also caught): live CRC instead of `remaining_crc`,
+`is_zlp` never cleared, PID latched only while the stream is idle, no CRC clear for a ZLP, conditional `remaining_crc`
+capture, CRC clear only while the PID is stalled, multiplexer PID select without the `tx.valid` term, single byte sent as ZLP.
 """
 from rv.sim import Bench
 from rv.usb2host import UTMIHost, init_device_signals
